@@ -179,6 +179,14 @@ class FieldData:
         (self.__class__.STORAGE_KEY == "name" and \
         fieldname == self.__class__.NAME_FIELD):
          renaming_connected = True
+         if self.__class__.STORAGE_KEY == "name":
+           previous = self._gfa.line(value)
+           if previous is not None and previous is not self:
+             raise gfapy.NotUniqueError(
+               "Line: {}\n".format(str(self))+
+               "cannot be renamed to {}\n".format(value)+
+               "Line or ID not unique\n"+
+               "Matching previous line: {}".format(str(previous)))
          self._gfa._unregister_line(self)
     if value is None:
       if fieldname in self._data:
